@@ -113,16 +113,26 @@ func GenPkt4(t *rapid.T) Pkt4 {
 		p.Opts = append(p.Opts, Opt4{54, rapid.SampledFrom([]string{"0a0a0a01", "0a0a0a02", "00000000", "0a0a0a", "0a0a0a0100"}).Draw(t, "opt54")})
 	}
 	if rapid.IntRange(0, 2).Draw(t, "has-61") == 0 {
-		p.Opts = append(p.Opts, Opt4{61, rapid.SampledFrom([]string{"01020000000001", "00", "ff0102030405060708090a0b0c0d0e0f", H(make([]byte, 255)), ""}).Draw(t, "opt61")})
+		// type 1 + MAC, a single byte, DUID-based (RFC 4361), 255 bytes, empty, and the PXE shape (type 0 + 16-byte UUID)
+		p.Opts = append(p.Opts, Opt4{61, rapid.SampledFrom([]string{"01020000000001", "00", "ff0102030405060708090a0b0c0d0e0f", H(make([]byte, 255)), "", "0000112233445566778899aabbccddeeff", "00" + "0102030405060708090a0b0c0d0e0f10"}).Draw(t, "opt61")})
 	}
 	if rapid.IntRange(0, 2).Draw(t, "has-82") == 0 {
-		p.Opts = append(p.Opts, Opt4{82, rapid.SampledFrom([]string{"01046369726332", "0104636972630206aabbccddeeff", "0100", "01ff", H(make([]byte, 200)), ""}).Draw(t, "opt82")})
+		// circuit id, + remote id, empty / lying sub-option lengths, 200 zero bytes, empty, link selection (5),
+		// server identifier override (11, RFC 5107) of 4 and of 3 bytes, relay flags (10)
+		p.Opts = append(p.Opts, Opt4{82, rapid.SampledFrom([]string{"01046369726332", "0104636972630206aabbccddeeff", "0100", "01ff", H(make([]byte, 200)), "",
+			"05040a0a0a00", "0b04c0000201", "01046369726332" + "0b04c0000201", "0b03c00002", "0a0180", "0b040a0a0a01"}).Draw(t, "opt82")})
 	}
 	if rapid.IntRange(0, 3).Draw(t, "has-12") == 0 {
 		p.Opts = append(p.Opts, Opt4{12, H(rapid.SliceOfN(rapid.Byte(), 0, 40).Draw(t, "hostname"))})
 	}
 	if rapid.IntRange(0, 4).Draw(t, "has-116") == 0 {
 		p.Opts = append(p.Opts, Opt4{116, rapid.SampledFrom([]string{"01", "00", "", "0102"}).Draw(t, "opt116")})
+	}
+	if rapid.IntRange(0, 7).Draw(t, "has-special") == 0 {
+		// options that mean something to some server implementations: rapid commit (80), PXE client UUID (97)
+		// well-formed and not, client architecture (93), vendor class (60), subnet selection (118), user class (77)
+		sp := rapid.SampledFrom([]Opt4{{80, ""}, {97, "0000112233445566778899aabbccddeeff"}, {97, "00"}, {93, "0007"}, {60, H([]byte("PXEClient:Arch:00007"))}, {118, "0a0a0a00"}, {77, "0469505845"}, {80, "00"}}).Draw(t, "special")
+		p.Opts = append(p.Opts, sp)
 	}
 	if rapid.IntRange(0, 5).Draw(t, "has-generic") == 0 {
 		p.Opts = append(p.Opts, Opt4{rapid.Byte().Draw(t, "gen-code"), H(rapid.SliceOfN(rapid.Byte(), 0, 20).Draw(t, "gen-data"))})
